@@ -46,6 +46,7 @@ pub fn market_outcome(id: &'static str, case: &MarketCase) -> Outcome {
                     ("market_reloads", f.reloads),
                     ("market_offgrid_creates", f.offgrid_create),
                     ("market_toggles", f.toggles),
+                    ("market_ops_through_get_order_book_mut", f.direct_ops),
                 ],
                 result: res.err(),
             }
@@ -226,12 +227,16 @@ pub fn parts(id: &'static str, tier: Tier) -> Option<(Vec<Part<Case>>, String)> 
                             ops.push((a, Op::CreatePlace { bid: false, vol: 6, trader: 77, price: None }));
                             ops.push((a, Op::CreatePlace { bid: true, vol: 6, trader: 77, price: None }));
                         }
-                        Some(Case::Market(MarketCase { ticks: vec![2, 2], levels: 3, trading: true, t0: 0, ops, zero_vols: false }))
+                        Some(Case::Market(MarketCase { ticks: vec![2, 2], levels: 3, trading: true, t0: 0, ops, zero_vols: false, direct_ops: false }))
                     }),
                     description: format!("every sequence of exactly {} operations on Market<2,3>, each = (asset 0 or 1) x (the 16 core create-and-place ops of C01 or cancel of local id 0..2), clock advanced before every op, then market orders draining both assets; both assets share local ids by construction", depth),
                 },
             };
             let mut v = vec![ex, market_part("market-random-dense", c.clone(), 4, tier.pick(120_000, 2_500_000))];
+            let mut dd = c.clone();
+            dd.direct_pct = 35;
+            dd.w_trading = 8;
+            v.push(market_part("market-random-dense-direct-book-access", dd, 4, tier.pick(60_000, 1_200_000)));
             let mut z = c.clone();
             z.zero_vol_pct = 12;
             v.push(market_part("market-random-dense-with-zero-volumes", z, 4, tier.pick(40_000, 800_000)));
@@ -282,7 +287,9 @@ pub fn parts(id: &'static str, tier: Tier) -> Option<(Vec<Part<Case>>, String)> 
             c.w_trading = 8;
             c.w_modify = 12;
             c.start_off_pct = 30;
-            Some((vec![market_part("market-random-toggles", c, 4, tier.pick(40_000, 800_000))], "Market cases: trading toggled at market level (fan-out to every asset): toggle changes nothing, no trade is logged on any asset while disabled, market orders are rejected.".to_string()))
+            let mut dd = c.clone();
+            dd.direct_pct = 35;
+            Some((vec![market_part("market-random-toggles", c, 4, tier.pick(40_000, 800_000)), market_part("market-random-toggles-direct-book-access", dd, 4, tier.pick(40_000, 800_000))], "Market cases: trading toggled at market level (fan-out to every asset): toggle changes nothing, no trade is logged on any asset while disabled, market orders are rejected.".to_string()))
         }
         _ => None,
     }
